@@ -306,6 +306,13 @@ fn check_prune2(ctx: &mut Ctx, e: &E, lib: &Value, v: &V, t1: &Ty, t2: &Ty) {
 }
 
 fn check_decode(ctx: &mut Ctx, compact_form: bool, t: &Ty, skip: usize, bytes: &[u8]) {
+    if let Err(m) = catch(|| check_decode_inner(ctx, compact_form, t, skip, bytes)) {
+        let verb = if compact_form { "dc" } else { "dp" };
+        fail(ctx, "panic-decode", &format!("{verb} {} {} {}", t.show(), skip, show_hex(bytes)), m);
+    }
+}
+
+fn check_decode_inner(ctx: &mut Ctx, compact_form: bool, t: &Ty, skip: usize, bytes: &[u8]) {
     let verb = if compact_form { "dc" } else { "dp" };
     let line = format!("{verb} {} {} {}", t.show(), skip, show_hex(bytes));
     let fin = t.fin();
@@ -354,8 +361,14 @@ fn check_decode(ctx: &mut Ctx, compact_form: bool, t: &Ty, skip: usize, bytes: &
     }
 }
 
-/// everything about one history expression
+/// everything about one history expression; a panic of the library anywhere is an oracle failure
 fn one_case(ctx: &mut Ctx, e: &E, ty_kind: &str, prune_targets: Option<Vec<(Ty, &'static str)>>) {
+    if let Err(m) = catch(|| one_case_inner(ctx, e, ty_kind, prune_targets)) {
+        fail(ctx, "panic-value-op", &format!("v {}", e.show()), m);
+    }
+}
+
+fn one_case_inner(ctx: &mut Ctx, e: &E, ty_kind: &str, prune_targets: Option<Vec<(Ty, &'static str)>>) {
     let (t, v) = match eval_ref(e) {
         Ok(x) => x,
         Err(_) => return, // not a history of a value (cannot happen for generated ones)
@@ -372,7 +385,11 @@ fn one_case(ctx: &mut Ctx, e: &E, ty_kind: &str, prune_targets: Option<Vec<(Ty, 
     };
     ctx.op(&line, &out);
     ctx.case(if t.bw() > 0 { Some(&line) } else { None });
-    ctx.count(&format!("reach:ty-{ty_kind}"));
+    if ty_kind == "fixed" || ty_kind == "replay" {
+        ctx.count(&format!("ty-{ty_kind}"));
+    } else {
+        ctx.count(&format!("reach:ty-{ty_kind}"));
+    }
     let mut rs = [false; 9];
     routes_of(e, &mut rs);
     for (i, b) in rs.iter().enumerate() {
@@ -495,20 +512,29 @@ pub fn run(ctx: &mut Ctx) {
     }
 
     // 2. generated histories
-    let n = ctx.scale(1_400, 40_000);
+    let n = ctx.scale(18_000, 220_000);
+    // every `period`-th case is a word of 512 … 4096 bits (expensive in the Lean model: few)
+    let period = ctx.scale(600, 400);
     let mut used = [0u64; 9];
     for it in 0..n {
-        let big = it % 16 == 0;
-        let (t, kind) = gen_ty(&mut ctx.rng, big);
+        let forced_big = it % period == 1;
+        let (t, kind) = if forced_big {
+            (Ty::word(9 + (it / period % 4) as usize), "word")
+        } else {
+            gen_ty(&mut ctx.rng, it % 16 == 0)
+        };
         let v = match ctx.rng.below(10) {
             0 => zero_val(&t),
             _ => gen_val(&mut ctx.rng, &t),
         };
         let depth = 1 + (it % 3) as usize;
-        let mut budget: i64 = if t.0.size > 2000 { if it % 64 == 0 { 30_000 } else { 40 } } else { 400 };
+        let mut budget: i64 = if t.0.size > 2000 { if it % (8 * period) == 1 { 30_000 } else { 40 } } else { 400 };
         let e = gen_expr(&mut ctx.rng, &t, &v, depth, &mut budget, &mut used);
         if e.show().len() > 300_000 {
             continue;
+        }
+        if t.bw() >= 512 {
+            ctx.count("reach:ty-word-512-to-4096-bits");
         }
         one_case(ctx, &e, kind, None);
     }
@@ -517,7 +543,7 @@ pub fn run(ctx: &mut Ctx) {
     }
 
     // 3. decoders on arbitrary input: every bit string of the right length is a value; short ones are errors
-    let n = ctx.scale(1_200, 40_000);
+    let n = ctx.scale(16_000, 200_000);
     for it in 0..n {
         let (t, _) = gen_ty(&mut ctx.rng, it % 32 == 0);
         let compact_form = it % 2 == 1;
